@@ -17,6 +17,7 @@ MODULES = {
     "C16": "harness.c16_dist",
     "C19": "harness.c19_bandits",
     "C12": "harness.c12_vecenv",
+    "C13": "harness.c13_faults",
 }
 
 TECH = "symbolic execution of the real Python functions on z3-backed proxies (re-execution path exploration); each obligation decided per path by z3 as pc ∧ assumptions ∧ ¬obligation; sat models replayed on the real code"
@@ -73,6 +74,11 @@ CLAIMED = {
         "level_note": NOTE + "; observation contents are concrete pairwise-distinct labels (typed shared memory), flags/rewards/actions symbolic; real process scheduling, pickling, cross-process shared memory, seeds are outside",
         "technique": TECH,
     },
+    "C13": {
+        "level_text": "bounded symbolic verification of the parent-side protocol of AsyncPettingZooVecEnv (reset/step/call async+wait, set_attr, close/close_extras, _poll_pipe_envs, _raise_if_errors) on an instance wired to in-memory pipes and recorder processes: for EVERY fault schedule (success flag of every worker reply, result of every poll) over 18 enumerated call sequences of length <= 5 with 2(3) workers: out-of-order calls raise NoAsyncCallError / AlreadyPendingCallError / ClosedEnvironmentError, send nothing and leave the state unchanged; a failing worker's exception reaches the caller with its type and the state returns to DEFAULT; a failed poll is reported as TimeoutError; close() never raises, marks the environment closed, closes every pipe, joins or terminates every process, never receives on a pipe without a pending reply, and a second close() is a no-op; plus the worker side: an exception in reset/step/_call is queued with its type, answered (None, False) and the sub-environment is closed",
+        "level_note": NOTE + "; true concurrency, killed processes, wall-clock bounds and OS-level liveness (a worker that never answers) are outside",
+        "technique": TECH,
+    },
     "C14": {
         "level_text": "bounded symbolic verification of the real action selection of DQN (get_action/_get_action), CQN, RainbowDQN (numpy masked arg-max path), DDPG, TD3 (noise + clip), PPO (evaluation-mode clip / squashed policy) and DeterministicActor.rescale_action on real agents with stub policy networks: for all network outputs (ties included), masks with >= 1 legal action, epsilon in [0,1], every uniform draw in [0,1) and all exploration noise at batch<=2(3), actions<=3(4), 2-3 action dims with asymmetric per-dimension bounds: the action has the batch shape, is a valid index whose mask bit is 1, is a best allowed action when exploration is off (epsilon 0 / training False), lies inside [low,high] for the continuous learners and evaluation-mode PPO, and rescale_action is the affine image of the activation range",
         "level_note": NOTE + "; that a real network's output activation delivers the assumed range, MADDPG/MATD3/IPPO/bandit action selection and MultiDiscrete/MultiBinary sampling (C16) are outside this check",
@@ -108,5 +114,4 @@ NOT_APPLICABLE = {
 }
 
 # designed in DESIGN.md §5 but the check is not built/registered yet (moves to CLAIMED when it lands)
-PENDING = {pid: "solver-based check designed (DESIGN.md §5) but not yet built in this tree; not claimed until it is"
-           for pid in ["C13"]}
+PENDING = {}
